@@ -1,7 +1,7 @@
 #!/bin/bash
 # confirm a seeded change in its scratch worktree: demo passes without, fails with; suite passes with.
-# usage: confirm_seed.sh <ID-K>   (expects /tmp/seed-<ID> worktree and /tmp/seed-out/<ID-K>/{patch.diff,seeded_<ID>_<K>.rs})
-IDK=$1; ID=${IDK%-*}; K=${IDK#*-}; WT=/tmp/seed-$ID; OUT=/tmp/seed-out/$IDK; LOG=$OUT/confirm.log; T=seeded_${ID}_${K}
+# usage: confirm_seed.sh <ID-K> [worktree]   (expects /tmp/seed-<ID> worktree and /tmp/seed-out/<ID-K>/{patch.diff,seeded_<ID>_<K>.rs})
+IDK=$1; ID=${IDK%-*}; K=${IDK#*-}; WT=${2:-/tmp/seed-$ID}; OUT=/tmp/seed-out/$IDK; LOG=$OUT/confirm.log; T=seeded_${ID}_${K}
 cd $WT || exit 2
 git checkout -q -- . ; git clean -fdq tests/
 exec > $LOG 2>&1
